@@ -293,7 +293,7 @@ def run_input(inp, ctx, applied=()):
     if broken:
         ctx.check(raised is not None, site + '/accepted-invalid', case,
                   lambda: f'broken rules {sorted(broken)} but a context was created')
-        ctx.check(type(raised) is ValueError, site + '/exception-class', case,
+        ctx.check(isinstance(raised, ValueError), site + '/exception-class', case,
                   lambda: f'broken rules {sorted(broken)}: raised {type(raised).__name__}: {raised}, want ValueError')
         return
     if raised is not None:
